@@ -220,3 +220,6 @@ func (s *Server) VerifEIOServer() *eio.Server { return s.eio }
 
 // VerifEIOSocketOf returns the Engine.IO socket that carries a server socket.
 func VerifEIOSocketOf(s ServerSocket) eio.ServerSocket { return s.(*serverSocket).conn.eio }
+
+// VerifBackoff returns the back-off object the manager built from its configuration (C15).
+func (m *Manager) VerifBackoff() VerifBackoff { return VerifBackoff{m.backoff} }
